@@ -116,6 +116,7 @@ class Run:
         self.classes = {}
         self.states = set()
         self.view_queries_after_mutation = 0
+        self.opquirks = {}        # op index -> quirks applicable to that (mutating) operation
 
 
 def lockstep(ops, obs, forced, upto=None, pid=PID, collect=None, base=frozenset()):
@@ -126,6 +127,7 @@ def lockstep(ops, obs, forced, upto=None, pid=PID, collect=None, base=frozenset(
     i = -1
     mutated = False
     last_mut = None
+    last_mut_i = None
     for op in ops:
         if op.name == 'kill':
             continue
@@ -179,6 +181,11 @@ def lockstep(ops, obs, forced, upto=None, pid=PID, collect=None, base=frozenset(
         if op.name in domref.MUTATING or (op.name == 'rg' and len(op.args) > 1 and op.args[1] in ('delete', 'extract', 'insertNode', 'surround')):
             mutated = True
             last_mut = op.name if op.name != 'rg' else 'rg-' + op.args[1]
+            if exp.cls in domref.TAIL_ONLY:
+                last_mut += '(' + exp.cls + ')'
+            last_mut_i = i
+            if exp.quirks:
+                run.opquirks[i] = list(exp.quirks)
         elif mutated and op.name in ('it', 'tw', 'list', 'map', 'rg', 'getById') and m.views:
             run.view_queries_after_mutation += 1
         run.seq.append((op.name, o.outcome))
@@ -205,6 +212,7 @@ def lockstep(ops, obs, forced, upto=None, pid=PID, collect=None, base=frozenset(
             if not okres:
                 run.mismatch = Mismatch(i, op, exp, 'result', {'expected': sorted(exp.res) if isinstance(exp.res, (set, frozenset)) else exp.res, 'observed': o.res})
                 run.mismatch.after = last_mut
+                run.mismatch.after_i = last_mut_i
                 return run
         if o.crc != '-':
             crc, nl, lines = m.dump_hash()
@@ -246,16 +254,24 @@ def compare_case(ops, obs, pid=PID, base=frozenset()):
         if mm is None:
             break
         explained = False
-        if mm.i not in forced and mm.exp is not None and mm.exp.quirks:
-            qs = list(dict.fromkeys(mm.exp.quirks))
+        at = mm.i
+        qs = list(dict.fromkeys(mm.exp.quirks)) if (mm.exp is not None and mm.exp.quirks) else []
+        if not qs and getattr(mm, 'after_i', None) is not None and mm.after_i not in forced:
+            # a wrong answer of a live view: the deviation may sit in the last tree mutation before the query
+            at = mm.after_i
+            qs = list(dict.fromkeys(run.opquirks.get(at, [])))
+        if at not in forced and qs:
             combos = [frozenset([q]) for q in qs] + ([frozenset(qs)] if len(qs) > 1 else [])
+            # one deviation can expose another one inside the same operation (e.g. an accepted xmlns name, then the node replacement of
+            # setAttributeNS): last attempt with every known deviation switched on for this operation
+            combos.append(frozenset(qs) | frozenset(domref.KNOWN_DEVIATIONS) | (frozenset(domref.KNOWN_VIEW_DEVIATIONS) if pid != PID else frozenset()))
             for combo in combos:
                 f2 = dict(forced)
-                f2[mm.i] = combo
+                f2[at] = combo
                 r2 = lockstep(ops, obs, f2, upto=mm.i, pid=pid, base=base)
                 if r2.mismatch is None and (r2.stopped is None or r2.stopped.startswith('undecided') or r2.stopped.startswith('diverged')):
                     forced = f2
-                    for q in sorted(combo):
+                    for q in sorted(combo if len(combo) <= len(qs) else frozenset(qs)):
                         viol.append(('%s:deviation:%s' % (pid, q), 'real library deviates from the DOM text in the way described by quirk "%s" (op %d: %s)' % (q, mm.i, mm.op.render()),
                                      {'op_index': mm.i, 'op': mm.op.render(), 'w3c_mismatch': mm.direction, 'detail': _short(mm.detail)}))
                     explained = True
@@ -528,6 +544,9 @@ def run_shard(args):
 
     for c in cases:
         r = recs.get(c.id)
+        if r is not None and r.hang and not r.crash:
+            # the batch watchdog fired (possible on an overloaded machine): the case is re-run alone; only a second trip is a hang
+            r = core.run_shard(binary, [c], tag='c13h%d' % shard, per_case_timeout=40.0, min_batch_timeout=150.0, env=_env_for(binary)).get(c.id)
         if r is None or not r.complete or r.crash or r.hang:
             crash_entry(c, r)
             continue
@@ -563,9 +582,18 @@ def run_shard(args):
     # authoritative verdict for every suspect: one more batch with invariants + dump hash after EVERY operation
     if suspects:
         need = [x for x in suspects if int(x[0].opt.get('chk', 1)) != 1]
-        recs2 = core.run_shard(binary, [_detailed(c) for c, _ in need], tag='c13v%d' % shard, per_case_timeout=10.0, min_batch_timeout=120.0, env=_env_for(binary)) if need else {}
+        recs2 = {}
+        for b in range(0, len(need), 40):
+            recs2.update(core.run_shard(binary, [_detailed(c) for c, _ in need[b:b + 40]], tag='c13v%d' % shard, per_case_timeout=20.0,
+                                        min_batch_timeout=240.0, env=_env_for(binary)))
         for c, viol in suspects:
             r2 = recs2.get(c.id + '_d')
+            if int(c.opt.get('chk', 1)) != 1 and (r2 is None or not r2.complete or r2.hang):
+                # batch was cut short (watchdog on an overloaded machine): again, alone, up to three times
+                for _try in range(3):
+                    r2 = core.run_shard(binary, [_detailed(c)], tag='c13w%d' % shard, per_case_timeout=40.0, min_batch_timeout=300.0, env=_env_for(binary)).get(c.id + '_d')
+                    if r2 is not None and (r2.complete or r2.crash):
+                        break
             if r2 is not None and r2.complete and not r2.crash and not r2.hang:
                 dobs, xl = parse_obs(r2.lines)
                 try:
@@ -574,6 +602,12 @@ def run_shard(args):
                         viol = viol2
                 except Harness:
                     pass
+            elif int(c.opt.get('chk', 1)) != 1:
+                if r2 is not None and r2.crash:
+                    crash_entry(c, r2)
+                else:
+                    out['harness'].append('%s: disagreement seen with coarse checking could not be re-executed with per-operation checking' % c.id)
+                continue
             for key, what, det in viol:
                 out['violations'].append((key, what, {'case': c.to_json(), 'expected_vs_observed': det}))
     out['states'] = len(out['states'])
@@ -727,8 +761,8 @@ def _run(ck, cfg, tier, binary, opts=None):
                 parts = key.split(':')
                 if parts[0] == 'ubsan' and len(parts) >= 3:
                     import re as _re
-                    kind = _re.sub(r'address \S+', 'address', parts[1])
-                    kind = _re.sub(r'[^A-Za-z ]+', '', kind).strip().replace('  ', ' ')[:48].strip().replace(' ', '-')
+                    kind = parts[1].split(' of ')[0]
+                    kind = _re.sub(r'[^A-Za-z ]+', '', kind).strip().replace(' ', '-')[:40]
                     key = '%s:ubsan:%s:%s' % (pid, kind, ':'.join(parts[2:]))
                 elif parts[0] in ('asan', 'signal') and len(parts) >= 3:
                     key = '%s:memory-error:%s' % (pid, ':'.join(parts[2:]))
